@@ -204,7 +204,29 @@ def corpus():
         yield tcp_script(Cfg(level=lvl), LENIENT, lvl == 1, rng, "corpus:lenient/malformed tcp level=%d" % lvl)
 
 
+
+def keepalive_scripts(rng):
+    """Several requests on ONE TCP flow (each must be answered on its own), a second request split over two
+    segments, and garbage between requests (fix ab1cb4b: the parser starts afresh after each answer)."""
+    out = []
+    reqs = [b"GET / HTTP/1.1\r\nHost: a\r\n\r\n", b"HEAD /x HTTP/1.0\n\n", b"POST /p HTTP/1.1\r\nA: b\r\n\r\n",
+            b"DELETE /d HTTP/2.0\r\n\r\n", b"OPTIONS /* HTTP/1.1\r\n\r\n"]
+    for v6 in (False, True):
+        s, d = gens.addr_pair(v6)
+        key = (0x51, 0x52)
+        cfg = Cfg(key=key)
+        out.append(Script(cfg, gens.handshake(key, s, d, 42000, 80, reqs), "keepalive:5-requests"))
+        out.append(Script(cfg, gens.handshake(key, s, d, 42001, 8080, [reqs[0], reqs[1][:7], reqs[1][7:], reqs[2]]), "keepalive:split-second"))
+        out.append(Script(cfg, gens.handshake(key, s, d, 42002, 80, [reqs[0], b"BREW / HTTP/1.1\r\n\r\n", reqs[1]]), "keepalive:bad-then-good"))
+        out.append(Script(cfg, gens.handshake(key, s, d, 42003, 80, [reqs[3], b"", b"x", reqs[4]]), "keepalive:empty-and-junk"))
+        for i, r in enumerate(reqs):
+            out.append(Script(cfg, gens.handshake(key, s, d, 42100 + i, 80, [r, r, r]), "keepalive:same-thrice"))
+    return out
+
+
 def generate(tier, rng):
+    for _sc in keepalive_scripts(rng):
+        yield _sc
     quick = tier == "quick"
     cfgs = [Cfg(level=5), Cfg(level=1), Cfg(level=1, logger="console"),
             Cfg(self_ips=[gens.SELF4, gens.SELF6], level=5), Cfg(key=(1, 2), level=3)]
